@@ -21,10 +21,10 @@ CONCRETE = {
 }
 
 
-def consts(n, kinds, fn, after=False):
+def consts(n, kinds, fn, after=False, tail="none"):
     k = list(kinds) + ["worker"] * 4
     return {"NItems": n, "K1": '"%s"' % k[0], "K2": '"%s"' % k[1], "K3": '"%s"' % k[2], "K4": '"%s"' % k[3],
-            "HasStopFn": fn, "ManualCtrl": True, "StopAfterWork": after}
+            "HasStopFn": fn, "ManualCtrl": True, "StopAfterWork": after, "LateTail": '"%s"' % tail}
 
 
 def model_check(ctx, quick):
@@ -34,6 +34,15 @@ def model_check(ctx, quick):
     for n, kinds, fn in runs:
         ctx.tlc("StopProtocol", cfg_text=vlib.cfg_text(constants=consts(n, kinds, fn), invariants=INV,
                                                        properties=["StopCompletes"]), timeout=3000)
+    # the goroutine of the previous control function (the start routine) signals its end only while the stop is under way:
+    # harmless when it ends its own invocation only (repaired tree) ...
+    ctx.tlc("StopProtocol", cfg_text=vlib.cfg_text(constants=consts(2, ("worker", "task"), True, tail="own"), invariants=INV,
+                                                   properties=["StopCompletes"]), timeout=3000)
+    # ... and the model must see the defect when it clears the flag unconditionally (finding F-C01-2)
+    r = ctx.tlc("StopProtocol", cfg_text=vlib.cfg_text(constants=consts(2, ("worker", "task"), True, tail="clears"),
+                                                       invariants=["OfflineAfterWork"]), timeout=3000, want_ok=False, count=False)
+    if r.violated != "OfflineAfterWork":
+        raise vlib.Inconclusive("StopProtocol does not see the late end of the previous control function (model is insensitive)")
 
 
 def gen_scripts(ctx, quick, after=False, outs=("ok", "ok", "ok", "err"), per=None):
